@@ -231,6 +231,21 @@ class Prover:
             res.extend(r if isinstance(r, tuple) else [r])
         return res
 
+    def no_division_by_zero(self, label, since, until=None, kind="definedness"):
+        """Opt-in definedness obligation: the divisors the code under test used between two marks of `c.defined`
+        (`since = len(c.defined)` taken before the calls) are non-zero for EVERY input the assumptions and the path
+        admit.  Without it a division only restricts the path to where it is defined."""
+        c = self.c
+        guards = list(c.defined[since:until])
+        if not guards:
+            return self.holds(label, True, kind)
+        saved = c.defined
+        c.defined = list(saved[:since]) + (list(saved[until:]) if until is not None else [])
+        try:
+            return self.holds(label, SB(z3.And(*guards)) if len(guards) > 1 else SB(guards[0]), kind)
+        finally:
+            c.defined = saved
+
     # -------------------------------------------------------------------------------- solving
     def _solve(self, o, negated_goal, try_free, pref=None):
         c = self.c
